@@ -170,6 +170,25 @@ def run_case(case, ctx):
             oracle.append("distinct JSON values %r and %r share id %s" % (v, w, a))
 
     tags = ["n_entries=%d" % min(len(v), 5)]
+    # one session, several state points that Python compares equal (1 / 1.0 / True) or that differ slightly:
+    # open_job must hand out the canonical id of EACH, whatever was opened before through the same Project
+    d0 = ctx.fresh_dir("c01s")
+    try:
+        project = signac.init_project(d0)
+        seq = [v] + near_misses(v, prng) + [gen.tupled(v), v]
+        for x in seq:
+            plainx = json.loads(json.dumps(x))
+            try:
+                got = project.open_job(x).id
+            except Exception as e:
+                got = "EXC:" + exc_name(e)
+            model.append("id " + enc_val(plainx))
+            impl.append(got)
+            if got != ref_id(plainx):
+                oracle.append("open_job(%r).id = %s after opening %r in the same session; md5 of canonical text = %s" % (
+                    x, got, seq[0], ref_id(plainx)))
+    finally:
+        ctx.cleanup(d0)
     if case.get("fs"):
         tags.append("fs")
         d = ctx.fresh_dir("c01")
